@@ -48,6 +48,14 @@ func (r *RNG) Intn(n int) int {
 
 func (r *RNG) Bool() bool { return r.Next()&1 == 1 }
 
+// Shuffle permutes xs in place.
+func (r *RNG) Shuffle(xs []string) {
+	for i := len(xs) - 1; i > 0; i-- {
+		j := r.Intn(i + 1)
+		xs[i], xs[j] = xs[j], xs[i]
+	}
+}
+
 func (r *RNG) Bytes(maxLen int, alphabet []byte) []byte {
 	n := r.Intn(maxLen + 1)
 	b := make([]byte, n)
